@@ -183,7 +183,10 @@ def split_batches(ctx, corpus, mode, n, batches):
         for v in viols:
             if (v["what"]) in seen or len(ctx.violations) >= 3:
                 continue
-            hits, rp = confirm_split(ctx, mode, prop, cases[v["id"]][0])
+            for attempt in range(3):     # (order-of-iteration dependent candidates may need more than one attempt)
+                hits, rp = confirm_split(ctx, mode, prop, cases[v["id"]][0])
+                if hits:
+                    break
             if hits:
                 seen.add(v["what"])
                 ctx.add_violation("%s: %s (split after statement %s) | script: %s" % (prop, v["what"], v.get("k"), cases[v["id"]][0]["text"].replace("\n", " ")[:300]), rp)
